@@ -167,9 +167,15 @@ func funcRange(v []data.Value) data.Value {
 	if increment == 0 {
 		panic("range: the step must not be zero")
 	}
+	const maxInt = int(^uint(0) >> 1)
+	const minInt = -maxInt - 1
 	var indices data.List
 	for index := init; (increment > 0 && index < limit) || (increment < 0 && index > limit); index += increment {
 		indices = append(indices, data.Int(index))
+		// stop if the next step would overflow: it would be past the limit
+		if (increment > 0 && index > maxInt-increment) || (increment < 0 && index < minInt-increment) {
+			break
+		}
 	}
 	return indices
 }
